@@ -75,9 +75,26 @@ def main():
     meta['detected_by'] = [c for c, v in det.items() if v['exit'] == 1]
     print('detection done:', json.dumps(det)[:600], flush=True)
     if '--skip-confirm' not in sys.argv:
-        sh('git -C %s worktree remove --force %s' % (REPO, WT))
-        rc, out = sh('git -C %s worktree add --detach %s HEAD' % (REPO, WT))
-        assert rc == 0, out
+        # one persistent scratch worktree per concurrency slot: its target/ directory is kept between evaluations so that
+        # only the crates a seed touches are rebuilt (removed with `git worktree remove --force` when all seeds are done)
+        slot_lock = None
+        for k in range(8):
+            f = open('/tmp/seed_slot_%d.lock' % k, 'w')
+            try:
+                fcntl.flock(f, fcntl.LOCK_EX | fcntl.LOCK_NB)
+                slot_lock = f
+                WT = '/tmp/wt_confirm_slot%d' % k
+                break
+            except OSError:
+                f.close()
+        assert slot_lock is not None, 'no free confirmation slot'
+        if os.path.isdir(os.path.join(WT, '.git')) or os.path.isfile(os.path.join(WT, '.git')):
+            head = sh('git -C %s rev-parse HEAD' % REPO)[1].strip()
+            rc, out = sh('git checkout -q --detach %s && git checkout -q -- . && git clean -fdq -e target' % head, cwd=WT)
+            assert rc == 0, out
+        else:
+            rc, out = sh('git -C %s worktree add --detach %s HEAD' % (REPO, WT))
+            assert rc == 0, out
         try:
             flt = os.path.commonprefix(tests) if len(tests) > 1 and len(os.path.commonprefix(tests)) >= 6 else ' '.join(tests[:1])
             democmd = 'cargo test --lib --offline ' + flt
@@ -101,8 +118,8 @@ def main():
                                 'failing': sorted(set(re.findall(r'FAIL \[[^\]]*\] \(\S+\) (\S+ \S+)', out3)))})
             meta['confirmed'] = bool(ok_clean and fails_patched and suite_ok)
         finally:
-            sh('git -C %s worktree remove --force %s' % (REPO, WT))
-            shutil.rmtree(WT, ignore_errors=True)
+            sh('git checkout -q -- . && git clean -fdq -e target', cwd=WT)
+            slot_lock.close()
     dst = os.path.join(VERIF, 'seeded', sid)
     os.makedirs(dst, exist_ok=True)
     for f in ('patch.diff', 'demo.diff', 'README.md'):
